@@ -1220,6 +1220,10 @@ _BTree_setstate(BTree *self, PyObject *state, int noval)
     if (state == Py_None)
         return 0;
 
+    if (!PyTuple_Check(state)) {
+        PyErr_SetString(PyExc_TypeError, "state must be a tuple");
+        return -1;
+    }
     if (!PyArg_ParseTuple(state, "O|O:__setstate__", &items, &firstbucket))
         return -1;
 
